@@ -14,6 +14,8 @@ def play_games(args):
     nready = 0
     for c in cases:
         root, moves = c["root"], c["moves"]
+        if c.get("newgame"):
+            s.send("ucinewgame")
         base = "position startpos" if root == START and c["use_startpos"] else "position fen " + root
         cmd = base + ((" moves " + " ".join(moves)) if moves else "")
         mark = len(s.lines)
@@ -64,10 +66,17 @@ def main():
                 n_plies += len(mv)
                 specials += sum(1 for x in st[1:] if x["mv"] >= 65536 or (x["mv"] // 4096) % 8 != 0)
                 cut = sorted(set([len(mv)] + [chk.rng.randrange(0, len(mv) + 1) for _ in range(2)]))
+                if n_games % 4 == 0:
+                    # the way a GUI sends a game: the same position command growing move by move, ucinewgame now and then
+                    cut = sorted(set(cut + list(range(0, min(len(mv), 24) + 1))))
+                sp = chk.rng.random() < 0.5
                 for k in cut:
                     cases.append({"root": root, "moves": mv[:k], "want_fen": st[k]["fen"], "want_replies": sorted(st[k]["replies"]),
-                                  "use_startpos": chk.rng.random() < 0.5, "go": chk.rng.random() < 0.15 and len(st[k]["replies"]) > 0})
-    chunks = [cases[i::16] for i in range(16)]
+                                  "use_startpos": sp, "go": chk.rng.random() < 0.1 and len(st[k]["replies"]) > 0,
+                                  "newgame": chk.rng.random() < 0.2})
+    # keep the cases of one game together and in order (growing move lists): contiguous chunks
+    per = -(-len(cases) // 16)
+    chunks = [cases[i:i + per] for i in range(0, len(cases), per)]
     results = vlib.pmap(play_games, [(binary, c, True) for c in chunks if c], n=16)
     n_cases = 0
     for res in results:
